@@ -459,4 +459,6 @@ def main(tier):
     A = scev.analysis('default')
     rep.attempt(check_generators, rep, A)
     rep.attempt(check_invert, rep, A)
+    import c16
+    rep.attempt(c16.check_tablefmt, rep)      # recovery encodes the survivors with tables from the dispatched builder
     return rep.finish()
